@@ -509,7 +509,7 @@ def bcdmasks(facts: CppFacts):
 _NARROW_ALLONES = re.compile(r"~\s*0\s*[uU]?(?![0-9a-zA-Z_])(?!\s*[lL])|~\s*\(?\s*unsigned\s*\)?\s*\(?\s*0\s*\)?")
 
 
-def narrowlit(facts: CppFacts):
+def narrowlit(facts: CppFacts, skip=None):
     """R-NARROWLIT (C02/C03): an all-ones mask in the runtime has to be as wide as the value type it is applied to
     (`~ValueType{0}`).  `~0`, `~0u`, `~0U` are 32 bits wide: combined with a 64-bit value they leave the upper half
     unmasked or unchecked.  No runtime header may contain one outside comments.  The pattern is exercised on a built-in
@@ -531,6 +531,8 @@ def narrowlit(facts: CppFacts):
             fn = next((f_.name for f_ in facts.functions + facts.methods if f_.file == rel and f_.begin <= mm.start() < f_.end), "")
             res.add(f"{rel}|{fn}|narrow-all-ones", f"{rel}:{line} uses a 32-bit all-ones literal (`...{ctx.strip()}...`): applied to a 64-bit value "
                     "type the upper 32 bits are not covered by the mask", rel, line, fn)
+    if skip is not None:
+        res.findings = [x for x in res.findings if not re.search(skip, x.key.split("|")[2])]
     res.samples = [f"{res.instances} runtime headers, no `~0`/`~0u` literal"]
     res.analysed = [f"runtime/cpp/{h}" for h in facts.headers]
     return res
